@@ -313,6 +313,7 @@ class Engine:
             self.path = Path(prefix, self.axioms)
             self.w = {}
             self.effects = []
+            self.module_ns = {}
             self.report.paths += 1
             try:
                 if self.on_path_start:
@@ -945,6 +946,11 @@ class Engine:
                 raise Unsupported('symbolic slice bounds', node)
             items = list(o.items)[l:h]
             return VTuple(items) if isinstance(o, VTuple) else VList(items)
+        hk = self.builtins.get('__getslice__')
+        if hk is not None:
+            r = hk(self, o, lo, hi, node)
+            if r is not None:
+                return r
         raise Unsupported('slice of %r' % (o,), node)
 
     def getitem(self, o, k, node=None):
